@@ -150,6 +150,11 @@ func runWire(e *Env) {
 	cfg.WriteCoalesceWaitTime = coalesce
 	cfg.Keyspace = keyspace
 	cfg.PageSize = pageDefault
+	if proto >= 2 && tp.Chance(1, 4) {
+		cl.AuthClass = "org.apache.cassandra.auth.PasswordAuthenticator"
+		cfg.Authenticator = gocql.PasswordAuthenticator{Username: "user", Password: "secret"}
+		k.Fault("swarm.authentication")
+	}
 	switch compName {
 	case "snappy":
 		cfg.Compressor = gocql.SnappyCompressor{}
@@ -385,6 +390,17 @@ func wireGenBinds(k *kernel.Kernel, proto int, n int, allowNamed bool) ([]wireBi
 	}
 	if named {
 		k.Fault("req.named-values")
+	} else if allowNamed && proto >= 3 && n >= 2 && tp.Chance(1, 8) {
+		// a list that mixes named and positional values cannot be expressed (the
+		// protocol names all values or none): whatever the driver does with it, the
+		// frame must stay well-formed. The names flag follows the first value.
+		for i := range out {
+			if tp.Next(2) == 1 {
+				out[i].name = fmt.Sprintf("n%d", i)
+			}
+		}
+		k.Fault("req.mixed-named-values")
+		return out, out[0].name != ""
 	}
 	return out, named
 }
@@ -607,7 +623,7 @@ func wireCheckValues(k *kernel.Kernel, what string, got []cqlspec.Value, want []
 				k.Violate("C03", "C03/value-bytes", "%s value %d (%s): wire has null=%v unset=%v % x, expected % x", what, i, w.t, g.Null, g.Unset, g.Bytes, w.bytes)
 			}
 		}
-		if named && proto >= 3 && g.Name != w.name {
+		if named && proto >= 3 && g.Name != w.name && !mixedNames(want) {
 			k.Violate("C03", "C03/value-name", "%s value %d: name %q on the wire, caller named it %q", what, i, g.Name, w.name)
 		}
 	}
@@ -1199,4 +1215,18 @@ func wireCheckFailures(k *kernel.Kernel, op *wireOp, proto int, n int, m gocql.E
 	} else if n != int(eb.NumFailures) {
 		k.Violate("C04", "C04/error-fields", "%s: NumFailures = %d, the frame carried %d", op.token, n, eb.NumFailures)
 	}
+}
+
+// mixedNames reports a bind list that names some values and not others; for such a list
+// only well-formedness and the values are demanded, not the names.
+func mixedNames(bs []wireBind) bool {
+	some, all := false, true
+	for _, b := range bs {
+		if b.name != "" {
+			some = true
+		} else {
+			all = false
+		}
+	}
+	return some && !all
 }
